@@ -45,20 +45,6 @@ impl ByteCompiler<'_> {
         self.patch_jump(early_exit);
     }
 
-    /// Closes all active iterators in the current [`CallFrame`][crate::vm::CallFrame].
-    pub(super) fn close_active_iterators(&mut self) {
-        let start = self.next_opcode_location();
-
-        let empty = self.register_allocator.alloc();
-        self.bytecode.emit_iterator_stack_empty(empty.variable());
-        let exit = self.jump_if_true(&empty);
-        self.register_allocator.dealloc(empty);
-
-        self.iterator_close(self.is_async_generator());
-        self.bytecode.emit_jump(start);
-        self.patch_jump(exit);
-    }
-
     /// Yields from the current generator.
     ///
     /// This is equivalent to the [`Yield ( value )`][yield] operation from the spec.
